@@ -29,9 +29,11 @@
   instruction so does the interrupted one, with the same error (`interrupted_fault_same`).  Ingredients: a relational
   calculus for "a user-mode computation cannot tell states apart that differ only outside user space, in the devices, the
   supervisor stack pointer and the bookkeeping" (`Rel2`, `step_eqv`: every instruction other than TRAP) and
-  `interrupt_keeps_user_state` (from `Rt.interrupt_transparent`: one interrupt leaves such a state).  Left to the
-  interrupted-vs-uninterrupted oracle: programs that execute TRAPs between interrupts, strict mode, and the comparison of
-  the display output.
+  `interrupt_keeps_user_state` (from `Rt.interrupt_transparent`: one interrupt leaves such a state).  `paired_run_eqv`
+  extends this to programs that call OS routines between interrupts: side by side, the interrupted and the uninterrupted
+  run stay equivalent across a routine that meets its contract on both machines (`Rt.Returned`, proved for GETC, OUT, PUTS,
+  IN, PUTSP in C11; `returned_pair`), provided input routines read the same input.  Left to the interrupted-vs-uninterrupted
+  oracle: strict mode, the comparison of the display output, interrupts inside an OS routine.
 -/
 import Lc3V.Lemmas.C10Core
 import Lc3V.Lemmas.IntTransparent
@@ -43,6 +45,7 @@ def obligations : List Lean.Name :=
   [``gate, ``taken_is_entry, ``pollStep_best, ``arbitration, ``key_order, ``enterCore_spec, ``sp_cells_distinct,
    ``entry, ``rti_spec, ``rti_undoes_entry, ``Rt.handler_returns, ``Rt.interrupt_transparent,
    ``NI.Rel2.readMem, ``NI.Rel2.writeMem, ``NI.Rel2.execInstr, ``NI.fetchExec_eqv, ``NI.step_eqv, ``NI.interrupt_gives_eqv,
-   ``NI.interrupted_run_eqv, ``NI.interrupted_fault_same, ``NI.interrupt_keeps_user_state, ``NI.interrupted_run_user]
+   ``NI.interrupted_run_eqv, ``NI.interrupted_fault_same, ``NI.interrupt_keeps_user_state, ``NI.interrupted_run_user,
+   ``NI.returned_pair, ``NI.paired_run_eqv]
 
 end Lc3V.C10
